@@ -276,6 +276,12 @@ func (k Keeper) verifyEthBlockProposal(sdkctx sdk.Context, msg *types.MsgNewEthB
 			return errors.New("invalid MsgNewEthBlock timestamp")
 		}
 
+		// the engine is shown, and answers for, the last 32 bytes of the block hash: a longer one would be
+		// recorded as the head, and no child naming the real hash as its parent could ever follow it
+		if len(payload.BlockHash) != common.HashLength {
+			return fmt.Errorf("invalid MsgNewEthBlock block hash length: %d", len(payload.BlockHash))
+		}
+
 		// verify if the block refers to the last block
 		block, err := k.Block.Get(sdkctx)
 		if err != nil {
